@@ -468,6 +468,10 @@ def run_check(prop: str, tier: str, engine_name, profile: Optional[Dict[str, Any
     with open(os.path.join(VERIF, "evidence", f"{prop}.json"), "w") as f:
         json.dump(evidence, f, indent=1, default=str)
 
+    if other_props.get("HARNESS") and not harness_problem:
+        example = next((v.get("detail", "") for l in ok_lines for v in (l["record"].get("violations") or []) if v.get("property") == "HARNESS"), "")
+        harness_problem = f"{other_props['HARNESS']} harness exception(s) inside runs, e.g. {example[-400:]}"
+
     for s in out_lines:
         print(s)
     if harness_problem and exit_code == 0:
